@@ -246,6 +246,7 @@ class Session:
             # no response will tell whether it took effect: the model cannot follow
             self.desync = True
             self.stats["desync"] += 1
+            self.stats["desync:idless-%s" % method] += 1
         if p.key is not None:
             if p.key in c.pending or p.key in c.done:
                 # the scenario reuses an id: the ledger cannot attribute responses; count only
@@ -335,8 +336,9 @@ class Session:
                 return "err", None
             if "fetchOnly" in pr and not isinstance(pr["fetchOnly"], bool):
                 return "err", None
-            if not self._timeout_ok(pr):
-                return ("err" if self._timeout_ok(pr) is False else "any"), None
+            tok = self._timeout_ok(pr)
+            if tok is False:
+                return "err", None
             acc = pr.get("access")
             if acc is not None and not isinstance(acc, dict):
                 return "any", None
@@ -353,7 +355,8 @@ class Session:
             def eff():
                 self.elements[path] = Elem(path, c, is_state, pr.get("value"), pr.get("fetchOnly") is True,
                                            pr.get("timeout"), acc or {})
-            return "ok", eff
+            # a timeout that nanoseconds cannot represent may be refused or accepted; the model follows the answer
+            return ("ok" if tok else "any"), eff
         if m == "remove":
             e = self.elements.get(path) if isinstance(path, str) else None
             if e is None or e.owner is not c:
@@ -591,7 +594,7 @@ class Session:
             p.deadline = self.now + p.armed_ns
             t = p.params.get("timeout", e.timeout if e is not None and e.timeout is not None else self.default_timeout)
             want = int(float(t) * 1e9)
-            if abs(p.armed_ns - want) > 1:
+            if abs(p.armed_ns - want) > 1 and float(t) <= 1e10:
                 self.v("route/wrong-deadline-armed", "armed %d ns, expected %d ns (%r)" % (p.armed_ns, want, t))
             self.sig("deadline", "req" if "timeout" in p.params else "elem" if e is not None and e.timeout is not None else "default")
         else:
@@ -650,6 +653,7 @@ class Session:
             if exp == "err" and success and p.method in ("add", "remove", "change", "fetch", "unfetch", "authenticate", "passwd"):
                 self.desync = True
                 self.stats["desync"] += 1
+                self.stats["desync:hostile-accepted-%s" % p.method] += 1
             if exp in ("ok", "err"):
                 exp = "any"
         self.sig("resp", p.method if p.method in METHODS else "?", exp, success)
@@ -687,6 +691,7 @@ class Session:
             # a state-changing request succeeded whose effect the model cannot derive: stop model-based verdicts
             self.desync = True
             self.stats["desync"] += 1
+            self.stats["desync:underivable-%s" % p.method] += 1
         if success and eff is not None:
             eff()
         if success and p.method == "get" and getattr(p, "readback", None) is not None:
